@@ -55,7 +55,10 @@ func FuzzReadMessage(f *testing.F) {
 	for i, kind := range msgKinds[:len(msgKinds)-1] {
 		for s := 0; s < 3; s++ {
 			enc := wire.MessageEncoding(1 + s%2)
-			v := rapid.Custom(func(t *rapid.T) *vcase { return genMessage(t, kind, wire.ProtocolVersion, enc, true) }).Example(s + 1)
+			v := rapid.Custom(func(t *rapid.T) *vcase {
+				rapid.Bool().Draw(t, "pad") // payload-less messages draw nothing else
+				return genMessage(t, kind, wire.ProtocolVersion, enc, true)
+			}).Example(s + 1)
 			e, _ := wirefmt.Payload(v.msg, wire.ProtocolVersion, enc == wire.WitnessEncoding, v.v2)
 			sel := uint32(len(pvers)-3) | uint32(s%2)<<8 | 1<<9 | uint32(i)<<10
 			f.Add(e.B, sel)
@@ -79,6 +82,7 @@ func FuzzReadMessage(f *testing.F) {
 			kind = msgKinds[int(sel>>10)%(len(msgKinds)-1)]
 			stream, class = wirefmt.Message(uint32(wire.MainNet), kind, data), "framed"
 		}
+		fuzzTick()
 		recFuzzMsg.Case(len(stream) >= 24, class, ev.Hash(u32b(sel), data), nil)
 		probeMessage(t, recFuzzMsg, stream, pver, wire.MainNet, enc, true)
 	})
@@ -106,6 +110,7 @@ func FuzzTxDecode(f *testing.F) {
 		if witness {
 			cl = "witness"
 		}
+		fuzzTick()
 		recFuzzTx.Case(len(data) > 10, cl, ev.Hash([]byte{b2i(witness)}, data), nil)
 		probeTx(t, recFuzzTx, data, witness, true)
 	})
@@ -133,6 +138,7 @@ func FuzzBlockDecode(f *testing.F) {
 		if witness {
 			cl = "witness"
 		}
+		fuzzTick()
 		recFuzzBlock.Case(len(data) > 81, cl, ev.Hash([]byte{b2i(witness)}, data), nil)
 		probeBlock(t, recFuzzBlock, data, witness, true)
 	})
